@@ -456,12 +456,15 @@ class Engine(StmtMixin):
                 if srcids is None or f.get_id() in srcids:
                     skolems.update(_scan_skolems(f))
             for q in allq.values():
-                if q.is_forall() and skolems and _nth_on_var_cached(q) and q.var_sort(0).kind() == z3.Z3_INT_SORT:
+                if skolems and _nth_on_var_cached(q) and q.var_sort(0).kind() == z3.Z3_INT_SORT:
                     for idx in skolems.values():
                         key = (q.get_id(), idx.get_id())
                         if key not in seen_inst:
                             seen_inst.add(key)
-                            new.append(z3.Implies(q, z3.substitute_vars(q.body(), idx)))
+                            if q.is_forall():
+                                new.append(z3.Implies(q, z3.substitute_vars(q.body(), idx)))
+                            else:  # witness introduction (used contrapositively under a negated existential)
+                                new.append(z3.Implies(z3.substitute_vars(q.body(), idx), q))
             for q in allq.values():
                 for sq in _nth_on_var_cached(q):
                     for idx in alln.get(sq.get_id(), {}).values():
